@@ -122,6 +122,19 @@ def _demoor(ctx, col):
     want_next = ("app", "hstack", (("app", "slice", (T, ZERO, T_sub(L, K(1)), NONE)),
                                    ("app", "hstack", (E.elem(T, K(-1)), ("app", "slice", (Y, ZERO, T_sub(m, K(1)), NONE))))))
     ok = same(nxt, want_next)
+    if not ok:
+        # the pipeline [order | in transit] has exactly L entries (one order, L - 1 in transit), so pipeline[0:L-1] ++ pipeline[-1] is the
+        # pipeline itself: the same successor written without taking it apart
+        def flat(t):
+            if isinstance(t, tuple) and t and t[0] == "app" and t[1] == "hstack":
+                out = []
+                for a in t[2]:
+                    a = flat(a)
+                    out.extend(a[2] if a[0] == "app" and a[1] == "hstack" else (a,))
+                return ("app", "hstack", tuple(out))
+            return t
+        want2 = ("app", "hstack", (ACTION, in_open, ("app", "slice", (Y, ZERO, T_sub(m, K(1)), NONE))))
+        ok = same(flat(nxt), flat(want2))
     col.add("R15.3", "DeMoorSingleProductPerishable.transition", owner.module.relpath, fn.lineno, ok,
             "next = [pipeline[0:L-1] | received = pipeline[-1] | stock after issue[0:m-1]], pipeline = [order | in transit]" if ok else
             f"successor is {brief(nxt, 400)}", text="successor composition")
